@@ -17,7 +17,7 @@ svars == <<classes, insts>>
 DeadOpt == [rtc |-> TRUE, allow |-> FALSE, start |-> "", budget |-> 0]
 DeadM == [alive |-> FALSE, cur |-> "", queue |-> <<>>, locked |-> FALSE, stack |-> <<>>,
           raising |-> FALSE, exc |-> NoExc, out |-> NoOut, qid |-> 1, gv |-> NoGV,
-          opt |-> DeadOpt, provs |-> {}, async |-> FALSE, budget |-> 0, ninv |-> 0, ctor |-> FALSE]
+          opt |-> DeadOpt, provs |-> {}, async |-> FALSE, budget |-> 0, ninv |-> 0, ctor |-> FALSE, tag |-> ""]
 Unborn == [cls |-> 0, m |-> DeadM]
 
 Slots == 1..NI
@@ -57,6 +57,7 @@ Activate(i, gv)     == Born(i) /\ OthersQuiet(i) /\ EnActivate(D(i), M(i)) /\ Up
 WriteSetter(i, v)   == Born(i) /\ OthersQuiet(i) /\ Idle(M(i)) /\ Upd(i, DoWriteSetter(D(i), M(i), v))
 WriteModel(i, v)    == Born(i) /\ OthersQuiet(i) /\ Idle(M(i)) /\ Upd(i, DoWriteModel(D(i), M(i), v))
 AddListener(i, p)   == Born(i) /\ OthersQuiet(i) /\ Idle(M(i)) /\ Upd(i, DoAddListener(D(i), M(i), p))
+SetTag(i, v)        == Born(i) /\ OthersQuiet(i) /\ Idle(M(i)) /\ Upd(i, DoSetTag(D(i), M(i), v))
 \* sm.add_listener(a, b, ...): several listeners in one call
 AddListeners(i, ps) == Born(i) /\ OthersQuiet(i) /\ Idle(M(i))
                        /\ Upd(i, [M(i) EXCEPT !.provs = @ \cup ps, !.out = RetOut(NoRes)])
